@@ -505,6 +505,9 @@ func analyzeUDP(e *Env, o WireOpts) *WireReport {
 	var maxLag float64
 	lastDelivered := map[flowKey]string{} // kind of the last datagram of a session delivered TO the sender of that flow
 	closeSeqs := map[flowKey]map[uint32]string{}
+	seenSeq := map[flowKey]map[uint32]bool{}
+	firstClose := map[flowKey]uint32{}
+	hasFirstClose := map[flowKey]bool{}
 	for hi, ev := range hub {
 		dir := simnet.C2S
 		if ev.D.From == o.ServerAddr {
@@ -592,6 +595,23 @@ func analyzeUDP(e *Env, o WireOpts) *WireReport {
 						rep.add("C13", "seq-reused-by-close-message", fmt.Sprintf("session %d %v: seq %d used for %s and again for %s (last datagram delivered to this endpoint: %s)", m.SessionID, dir, m.Seq, prev, refcodec.TypeName(m.Type), lk))
 					}
 				}
+				if len(closeSeqs[fk]) == 0 {
+					// the flow's first close message is the session's own: its
+					// number must not be one a data segment was sent with
+					firstClose[fk] = m.Seq
+					hasFirstClose[fk] = true
+					if sent[fk] != nil && sent[fk][m.Seq] != nil {
+						rep.add("C13", "seq-shared-by-close-message-and-data", fmt.Sprintf("session %d %v: %s carries seq %d, which was already transmitted with a %s segment", m.SessionID, dir, refcodec.TypeName(m.Type), m.Seq, refcodec.TypeName(sent[fk][m.Seq].typ)))
+					}
+				}
+				// close messages take numbers too (a forced close skips the data it discards)
+				if seenSeq[fk] == nil {
+					seenSeq[fk] = map[uint32]bool{}
+				}
+				seenSeq[fk][m.Seq] = true
+				for seenSeq[fk][nextFirst[fk]] {
+					nextFirst[fk]++
+				}
 				closeSeqs[fk][m.Seq] = refcodec.TypeName(m.Type)
 				rep.Obs["close_messages_checked"]++
 			}
@@ -610,11 +630,21 @@ func analyzeUDP(e *Env, o WireOpts) *WireReport {
 						rep.add("C13", "retransmission-differs", fmt.Sprintf("session %d %v seq %d: first transmission type %s frag %d payload %x.., later %s frag %d payload %x..", m.SessionID, dir, m.Seq, refcodec.TypeName(prev.typ), prev.frag, prev.hash[:6], refcodec.TypeName(m.Type), m.Fragment, h[:6]))
 					}
 				} else {
-					if m.Seq != nextFirst[fk] {
-						rep.add("C13", "seq-gap-or-reorder-at-first-transmission", fmt.Sprintf("session %d %v: first transmission of seq %d while next unassigned seq is %d", m.SessionID, dir, m.Seq, nextFirst[fk]))
+					if hasFirstClose[fk] && firstClose[fk] == m.Seq {
+						rep.add("C13", "seq-shared-by-close-message-and-data", fmt.Sprintf("session %d %v: %s segment first transmitted with seq %d, the number the session's close message carries", m.SessionID, dir, refcodec.TypeName(m.Type), m.Seq))
 					}
-					if m.Seq >= nextFirst[fk] {
-						nextFirst[fk] = m.Seq + 1
+					// nextFirst is the smallest number not yet seen on the wire
+					// (data or close message). A first transmission above it
+					// leaves a hole below: a skipped or overtaken number.
+					if m.Seq > nextFirst[fk] {
+						rep.add("C13", "seq-gap-or-reorder-at-first-transmission", fmt.Sprintf("session %d %v: first transmission of seq %d while seq %d has never been transmitted", m.SessionID, dir, m.Seq, nextFirst[fk]))
+					}
+					if seenSeq[fk] == nil {
+						seenSeq[fk] = map[uint32]bool{}
+					}
+					seenSeq[fk][m.Seq] = true
+					for seenSeq[fk][nextFirst[fk]] {
+						nextFirst[fk]++
 					}
 					sent[fk][m.Seq] = &txInfo{typ: m.Type, frag: m.Fragment, hash: h, n: 1}
 					payloads[fk][m.Seq] = seg.Payload
